@@ -27,8 +27,9 @@ ALL_DEVIATIONS = ["TrimOtherSkipsCheck", "MemWalIgnoresMerge", "MergeIgnoresMerg
 # ... and the ones currently believed to describe /repo: histories are generated from the model with exactly these
 # (so the findings it predicts are the ones the implementation must show), and the trace validator accepts a
 # step explained by any subset of them.  Remove a name when its `fix:` commit lands in /repo.
-AS_BUILT = ["TrimOtherSkipsCheck", "MemWalIgnoresMerge", "MergeIgnoresMerge", "MergeIgnoresTrim",
-            "AdvanceIgnoresClosedLatest", "TrimRemovesLatest"]
+# (2026-09-22: the first five were repaired in /repo by `fix:` commits 34e54bc..9766f6c; TrimRemovesLatest is kept
+# as a known finding because the repository's own test suite pins trimming the only generation of a region)
+AS_BUILT = ["TrimRemovesLatest"]
 if os.environ.get("VERIF_C39_BELIEVED") is not None:      # development: try another belief without editing this file
     AS_BUILT = [d for d in os.environ["VERIF_C39_BELIEVED"].split(",") if d]
 ALL_KINDS = ["advance", "append", "seal", "flush", "merge", "owner", "trim", "mmerge", "tappend", "checkout"]
